@@ -343,6 +343,77 @@ def _item_job(job):
     return n, items, bad, refused
 
 
+def _connected_spa_job(_):
+    """The blocking setter on a really CONNECTED async spa (accessor.value = x -> GeckoAsyncSpa._on_set_value): every
+    blocking write puts its own device write on the wire, also when several are made with no await between them."""
+    from . import c01
+    from ..peers import unframe, SPA_ADDR
+
+    lib.reset_library()
+    rig = c01.ARig()
+    spa = rig.spa
+    rig.peer.set_block(rig.block_at_connect)
+    spa.struct.set_status_block(rig.block_at_connect)
+    acc = spa.accessors
+    writable = [a for a in acc.values() if a._decl["rw"] is not None and a._decl["type"] in ("Enum", "Byte", "Word", "Bool")
+                and a.pos + a.length <= 1024][:40]
+    bad = []
+    n = 0
+
+    def value_for(a):
+        d = a._decl
+        if d["type"] == "Enum":
+            cur = a.value
+            return next((x for x in d["items"] if x not in ("", cur)), d["items"][0])
+        if d["type"] == "Bool":
+            return not bool(a.value)
+        return (int(a.value) + 1) % 200
+
+    groups = [writable[i:i + k] for k in (1, 2, 3) for i in range(0, min(len(writable), 12), k)]
+    for grp in groups:
+        if len({(a.pos, a._decl["bitpos"]) for a in grp}) != len(grp) or len({a.pos for a in grp}) != len(grp):
+            continue
+        mark = len(rig.net.sent)
+        spa._last_ping = rig.loop.time()  # the rig cancelled the ping loop: the harness stands in for the answered pings
+        exp = []
+        h = Host()
+        h.set_block(spa.struct.status_block)
+        with rig.loop.running():
+            for a in grp:
+                v = value_for(a)
+                del h.emitted[:]
+                twin = _twin_of(a, h.sync)
+                twin.value = v
+                exp.append(h.emitted[0])
+                a.value = v          # blocking setter, no await in between
+        rig.loop.run_for(4.0)
+        n += 1
+        got = []
+        for (tm, src, dst, data) in rig.net.sent[mark:]:
+            if dst == SPA_ADDR:
+                p = unframe(data)
+                if p and p[2].startswith(b"SPACK") and p[2][8] == 0x46:
+                    c = p[2]
+                    ln = c[7] - 5
+                    got.append((int.from_bytes(c[11:13], "big"), ln, int.from_bytes(c[13:13 + ln], "big")))
+        if sorted(got) != sorted(exp):
+            bad.append(("blocking-on-async-spa", f"{len(grp)} blocking write(s) to {[a.tag for a in grp]} on a connected async spa with no await "
+                                                 f"between them: device writes on the wire {got}, expected {exp}"))
+            break
+    rig.close()
+    return n, bad
+
+
+def _twin_of(a, struct):
+    d = a._decl
+    cls = getattr(amod, d["cls"])
+    if d["cls"] == "GeckoEnumStructAccessor":
+        return cls(struct, d["tag"], d["pos"], d["bitpos"], d["items"], d["size"], d["maxitems"], d["rw"])
+    if d["cls"] == "GeckoBoolStructAccessor":
+        return cls(struct, d["tag"], d["pos"], d["bitpos"], d["rw"])
+    return cls(struct, d["tag"], d["pos"], d["rw"])
+
+
 def run(ctx):
     host = Host()
     shapes = {}
@@ -396,6 +467,11 @@ def run(ctx):
     ctx.set("items_checked", icount)
     ctx.set("read_only_items_refusing", refused)
     ctx.log(f"B: {icount} items in {len(jobs)} tables: {ie} writes, {refused} read-only items refuse")
+    for (n_, bad_) in core.pmap(ctx, _connected_spa_job, [0], chunksize=1):
+        evals += n_
+        for cls_, text_ in bad_:
+            ctx.violation(f"C02|{cls_}", text_, {"mode": "connected-spa"})
+    nontrivial.add("connected-spa")
     ctx.set("evaluations", evals)
     ctx.set("distinct_nontrivial", len(nontrivial))
     ctx.set("rule", "cases = (item or shape twin, prior field contents, value) writes through both paths; distinct_nontrivial = "
@@ -409,6 +485,14 @@ def run(ctx):
 
 
 def replay(ctx, data):
+    if data.get("mode") == "connected-spa":
+        n_, bad_ = _connected_spa_job(0)
+        for cls_, text_ in bad_:
+            ctx.violation(f"C02|{cls_}", text_, data)
+        ctx.set("evaluations", 1)
+        ctx.set("distinct_nontrivial", 2)
+        ctx.set("rule", "replay")
+        return
     if data["mode"] == "shape":
         n, bad = _shape_job((data["decl"], data.get("seed", 0)))
         if bad:
